@@ -151,6 +151,17 @@ fn gen_session(rng: &mut Rng, no_twins: bool, c06: bool) -> Session {
         None => gen_history(rng, &cfg, k).1,
     };
     let k = docs.len();
+    let rewritten_dups = c06 && rng.pct(40);
+    let alts: Vec<Option<Doc>> = if rewritten_dups {
+        docs.iter()
+            .map(|d| {
+                let mut fired = Vec::new();
+                Some(crate::dom::rewrite(rng, d, &mut fired))
+            })
+            .collect()
+    } else {
+        vec![None; k]
+    };
     let in_order: Vec<usize> = (0..k).collect();
     let mut replicas = Vec::new();
     let base: Vec<Step> = in_order.iter().map(|i| Step { input: Input::Doc(*i), plan: Plan::slice(), cfg: 0 }).collect();
@@ -205,7 +216,16 @@ fn gen_session(rng: &mut Rng, no_twins: bool, c06: bool) -> Session {
                 let at = rng.range(first + 1, o.len());
                 o.insert(at, d);
             }
-            let st: Vec<Step> = o.iter().map(|i| Step { input: Input::Doc(*i), plan: Plan::slice(), cfg: 0 }).collect();
+            // a redelivery may also arrive with rewritten incidental detail (same structure): still a no-op
+            let mut seen_docs: Vec<usize> = Vec::new();
+            let st: Vec<Step> = o
+                .iter()
+                .map(|i| {
+                    let again = seen_docs.contains(i);
+                    seen_docs.push(*i);
+                    Step { input: if again && rewritten_dups { Input::Alt(*i) } else { Input::Doc(*i) }, plan: Plan::slice(), cfg: 0 }
+                })
+                .collect();
             replicas.push(Replica { role: "duplicating".into(), entropy: rng.u128(), steps: st });
             // unreliable channel: reordered, empties interleaved, failed deliveries followed by a good redelivery
             let mut o = in_order.clone();
@@ -215,7 +235,7 @@ fn gen_session(rng: &mut Rng, no_twins: bool, c06: bool) -> Session {
             replicas.push(Replica { role: "unreliable-channel".into(), entropy: rng.u128(), steps: env_steps(rng, &docs, &o, true, true) });
         }
     }
-    Session { alts: vec![None; docs.len()], docs, replicas, opts: vec![RenderOpt::preset(false, false, ""), RenderOpt::preset(false, true, "")] }
+    Session { alts, docs, replicas, opts: vec![RenderOpt::preset(false, false, ""), RenderOpt::preset(false, true, "")] }
 }
 
 /// the documents (by index) a replica has successfully delivered so far, in delivery order, after each step
@@ -275,6 +295,14 @@ fn prepare<'a>(s: &'a Session, ctr: &mut Ctr, need_twin_free: bool) -> Result<Re
     }
     let refs: Vec<&Doc> = s.docs.iter().collect();
     crosscheck_docs(&refs)?;
+    for (d, a) in s.docs.iter().zip(s.alts.iter()) {
+        if let Some(a) = a {
+            if crate::verdict::structure_of(&a.root) != crate::verdict::structure_of(&d.root) {
+                return Ok(Err(skip("rewrite_changed_structure")));
+            }
+            crosscheck_docs(&[a])?;
+        }
+    }
     let model_all = infer(&refs);
     if need_twin_free && prefix_twins(&model_all) {
         return Ok(Err(skip("precondition_prefix_twins")));
